@@ -24,6 +24,9 @@ structure ScanCfg where
   targetOffset : Nat
   targetLimit : Option Nat
 
+/-- the rows a scanner keeps: the row passes the child-store test and the filter -/
+def ScanCfg.keep (cfg : ScanCfg) (x : Bytes) : Bool := !cfg.skipRow x && cfg.filter x
+
 def ScanCfg.limitReached (cfg : ScanCfg) (collected : Nat) : Bool :=
   match cfg.targetLimit with
   | none => false
@@ -40,7 +43,8 @@ def scanNext {σ} (M : Machine σ) (cfg : ScanCfg) : Nat → ScanState σ → Ou
       let c' ← M.next st.cursor                     -- cursor.Next()
       let st1 : ScanState σ := { st with cursor := c', current := cur }
       let id := cur.getD []
-      if cfg.skipRow id then scanNext M cfg fuel st1
+      if cur.isNone then scanNext M cfg fuel st1    -- `if scanner.current == nil { continue }`: an element without a key is not a row
+      else if cfg.skipRow id then scanNext M cfg fuel st1
       else if cfg.filter id then
         if st1.offset < cfg.targetOffset then scanNext M cfg fuel { st1 with offset := st1.offset + 1 }
         else pure { st1 with collected := st1.collected + 1 }
